@@ -150,7 +150,7 @@ func TestC14(t *testing.T) {
 func genPlanC13(rt *rapid.T) *RPlan {
 	p := &RPlan{Retain: 8}
 	p.PauseUs = rapid.SampledFrom([]int{0, 1000, 2000, 5000, 20000}).Draw(rt, "pause")
-	p.Scenario = rapid.SampledFrom([]string{"pacing", "idle", "idle", "saturated", "storm"}).Draw(rt, "scenario")
+	p.Scenario = rapid.SampledFrom([]string{"pacing", "pacing", "idle", "idle", "saturated", "saturated", "storm", "storm", "close-in-inhibit"}).Draw(rt, "scenario")
 	lanes := rapid.IntRange(1, 8).Draw(rt, "senders")
 	budgetUs := 250_000 // keep a case within a few hundred ms of real time
 	per := p.PauseUs + 100
@@ -196,6 +196,18 @@ func genPlanC13(rt *rapid.T) *RPlan {
 				p.Net = append(p.Net, RNet{AfterUs: rapid.IntRange(200, span/3+300).Draw(rt, "lost-after"), Kind: "lost", Count: rapid.IntRange(1, 6).Draw(rt, "lost-count")})
 			}
 		}
+	case "close-in-inhibit":
+		// a busy indication, and while its inhibit is running the application closes the router (or the socket dies):
+		// Sends that were waiting and Sends issued afterwards still return ("every Send eventually returns")
+		first := total / 2
+		add(first, 0)
+		at := first*per/lanes + 2*p.PauseUs + 2000
+		if wait < 20 || wait > 500 {
+			wait = 40
+		}
+		p.Net = []RNet{{AfterUs: at, Kind: "busy", WaitMs: wait, Ctl: ctl}}
+		add(total-first+1, at+rapid.IntRange(200, 4000).Draw(rt, "late-senders"))
+		p.CloseUs = at + rapid.IntRange(1000, 15000).Draw(rt, "close-after-busy")
 	case "idle":
 		// a first burst, then (after it has drained) a busy at idle, then a second burst released once the hold was seen
 		first := total / 2
